@@ -182,3 +182,141 @@ R.contract(
     },
     replayable=False,
 )
+
+
+# ------------------------------------------------------------------------------------------------- `st run`: the command-line options reach the run configuration unchanged
+# The wiring of the CLI command is one straight-line function. Its clauses belong to several properties (seed: C13; limits: C12; overrides / headers / auth: C14;
+# sanitization switch: C15; filters: C07) - the other checks run this same job (SHARED_JOBS in their modules).
+RUN = "schemathesis.cli.commands.run:"
+CLI = "schemathesis.cli.commands.run."
+
+
+def _record(name, cls_name):
+    """A constructor / helper whose result simply records the keyword arguments it was called with."""
+
+    def returns(it, env):
+        from pyvc.values import VObj
+
+        return VObj(it.resolve_class("spec:" + cls_name), {k: v for k, v in env.items() if not k.startswith("__")})
+
+    return returns
+
+
+R.contract("schemathesis.cli.core:ensure_color", args={"ctx": Opq("Any"), "no_color": Opq("Any"), "force_color": Opq("Any")}, returns=NoneT, trusted=True, note="terminal colours")
+R.contract(CLI + "validation:validate_schema", args={"schema": Opq("Any"), "base_url": Opq("Any")}, returns=NoneT, trusted=True, note="usage validation (may exit with a usage error before anything runs)")
+R.contract(CLI + "validation:validate_auth_overlap", args={"auth": Opq("Any"), "headers": Opq("Any"), "override": Opq("Any")}, returns=NoneT, trusted=True, note="usage validation")
+R.contract(CLI + "hypothesis:prepare_phases", args={"no_shrink": Bool}, returns=Opq("HypothesisPhases"), trusted=True, effects={"no_shrink": "no_shrink"}, note="all phases, minus shrink when asked")
+R.contract(CLI + "hypothesis:prepare_health_checks", args={"suppress_health_check": Opq("Any")}, returns=Opq("HealthChecks"), trusted=True, note="health-check selection")
+R.contract(CLI + "hypothesis:prepare_settings", args={"database": Opq("Any"), "derandomize": Opq("Any"), "max_examples": Opq("Any"), "phases": Opq("Any"), "suppress_health_check": Opq("Any")},
+           returns=_record("prepare_settings", "PreparedSettings"), trusted=True, note="hypothesis.settings built from exactly these values (None = Hypothesis default)")
+R.contract(CLI + "filters:FilterArguments.into", args={"self": Opq("Any")}, returns=lambda it, env: __import__("pyvc.values", fromlist=["VObj"]).VObj(it.resolve_class("spec:BuiltFilterSet"), {"built_from": env["self"]}),
+           trusted=True, note="C07 contracts: the filter set of these options")
+R.contract(CLI + "checks:CheckArguments.into", args={"self": Opq("Any")}, returns=lambda it, env: (fresh_opaque(it, "SelectedChecks"), fresh_opaque(it, "ChecksConfig")), trusted=True,
+           effects={"check_args": "self"}, note="check selection (C04 / C05)")
+R.contract(CLI + "reports:ReportConfig", abstract_only=True, args={"formats": Opq("Any"), "directory": Opq("Any"), "junit_path": Opq("Any"), "vcr_path": Opq("Any"), "har_path": Opq("Any"),
+                                                                  "preserve_bytes": Opq("Any"), "sanitize_output": Opq("Any")}, returns=_record("ReportConfig", "ReportConfigRecord"), note="records its arguments")
+R.contract(CLI + "executor:execute", args={"config": Opq("Any")}, returns=NoneT, trusted=True, effects={"executed": "ghost('executed') + [config]"}, note="C05 / C11 contracts: runs the engine with this configuration")
+R.extern["pathlib.Path"] = lambda it, a, k: ("path", a[0])
+
+
+def _random(it, a, k):
+    from pyvc.values import VObj
+
+    if a or k:
+        raise OutOfSubset("Random(<seed>)")
+    return VObj(it.resolve_class("spec:SystemRandom"), {})
+
+
+def _getrandbits(it, obj, a, k):
+    n = a[0]
+    v = IntRange(0, 2 ** n - 1).make(it, it.path.fresh("random_bits"))
+    it.ghost["random_draws"] = it.ghost.get("random_draws", []) + [v]
+    return v
+
+
+R.extern["random.Random"] = _random
+R.nominal_methods["spec:SystemRandom"] = {"getrandbits": _getrandbits}
+R.module_values["schemathesis.cli.commands.run:TARGETS"] = __import__("pyvc.interp", fromlist=["LazyModuleValue"]).LazyModuleValue(
+    lambda it: __import__("pyvc.values", fromlist=["VObj"]).VObj(it.resolve_class("spec:TargetsRegistry"), {}))
+R.nominal_methods["spec:TargetsRegistry"] = {"get_by_names": lambda it, obj, a, k: ("targets", tuple(a[0]))}
+# DROPPED by the extraction: the click decorators of `run` (@click.argument, @group, @grouped_option, @with_filters, @click.pass_context). They declare the command-line
+# options and their parsers / validators; the function click finally calls is this body with the parsed option values as keyword arguments - which is what is verified.
+R.extra_decorators |= {"click.argument", "click.pass_context", "group", "grouped_option", "with_filters"}
+_OptStrs = lambda: OneOf(NoneT, Str)
+_RunArgs = {
+    "ctx": Obj("spec:ClickContext", args=Const(("--raw-arg",)), params=Const({"raw": "params"})), "schema": Str, "auth": Opq("AuthPair"), "headers": Opq("HeadersMap"),
+    "set_query": Opq("SetQuery"), "set_header": Opq("SetHeader"), "set_cookie": Opq("SetCookie"), "set_path": Opq("SetPath"),
+    "experiments": Const([]), "coverage_unexpected_methods": Opq("UnexpectedMethods"), "missing_required_header_allowed_statuses": Opq("Statuses1"),
+    "positive_data_acceptance_allowed_statuses": Opq("Statuses2"), "negative_data_rejection_allowed_statuses": Opq("Statuses3"), "included_check_names": Opq("CheckNames1"),
+    "excluded_check_names": Opq("CheckNames2"), "max_response_time": Opq("MaxResponseTime"), "phases": Choice(("examples", "coverage", "fuzzing", "stateful"), ("fuzzing",), ("Stateful", "examples")),
+    "max_failures": Opq("MaxFailures"), "continue_on_failure": Bool,
+    "include_path": Opq("F1"), "include_path_regex": Opq("F2"), "include_method": Opq("F3"), "include_method_regex": Opq("F4"), "include_name": Opq("F5"), "include_name_regex": Opq("F6"),
+    "include_tag": Opq("F7"), "include_tag_regex": Opq("F8"), "include_operation_id": Opq("F9"), "include_operation_id_regex": Opq("F10"),
+    "exclude_path": Opq("G1"), "exclude_path_regex": Opq("G2"), "exclude_method": Opq("G3"), "exclude_method_regex": Opq("G4"), "exclude_name": Opq("G5"), "exclude_name_regex": Opq("G6"),
+    "exclude_tag": Opq("G7"), "exclude_tag_regex": Opq("G8"), "exclude_operation_id": Opq("G9"), "exclude_operation_id_regex": Opq("G10"),
+    "include_by": Opq("F11"), "exclude_by": Opq("G11"), "exclude_deprecated": Bool,
+    "workers_num": IntRange(1, 64), "base_url": Opq("BaseUrl"), "wait_for_schema": Opq("WaitForSchema"), "rate_limit": Opq("RateLimit"), "suppress_health_check": Opq("SuppressHC"),
+    "request_timeout": Opq("RequestTimeout"), "request_tls_verify": Bool, "request_cert": _OptStrs(), "request_cert_key": _OptStrs(), "request_proxy": Opq("Proxy"),
+    "report_formats": OneOf(NoneT, Opq("ReportFormats")), "report_dir": Opq("ReportDir"), "report_junit_path": OneOf(NoneT, Opq("JunitPath")), "report_vcr_path": OneOf(NoneT, Opq("VcrPath")),
+    "report_har_path": NoneT, "report_preserve_bytes": Bool, "output_sanitize": Bool, "output_truncate": Bool, "contrib_openapi_fill_missing_examples": Const(False),
+    "generation_modes": TupleOf(Opq("GenerationModeA"), Opq("GenerationModeB")), "generation_seed": Opt(Int), "generation_max_examples": Opq("MaxExamples"), "generation_maximize": NoneT,
+    "generation_deterministic": OneOf(NoneT, Bool), "generation_database": Opq("DatabaseOption"), "generation_unique_inputs": Bool, "generation_allow_x00": Bool, "generation_graphql_allow_null": Bool,
+    "generation_with_security_parameters": Bool, "generation_codec": Str, "generation_no_shrink": Bool, "force_color": Const(False), "no_color": Bool,
+}
+R.extern["list"] = R.extern.get("list") or None
+if R.extern["list"] is None:
+    del R.extern["list"]
+CFG = "ghost('executed')[0]"
+EXEC = CFG + ".engine.execution"
+_FILTER_NAMES = [f"{kind}_{what}{suffix}" for kind in ("include", "exclude") for what in ("path", "method", "name", "tag", "operation_id") for suffix in ("", "_regex")] + ["include_by", "exclude_by", "exclude_deprecated"]
+def _same(it, a, b):
+    """The option value ITSELF reaches the configuration: identity for objects / containers, equal value of the same type for scalars."""
+    from pyvc.values import Sym
+    from pyvc import ops
+    from pyvc.builtins_ import type_name
+
+    if isinstance(a, Sym) or isinstance(b, Sym) or isinstance(a, (int, str, bool)) or isinstance(b, (int, str, bool)):
+        return type_name(a) == type_name(b) and ops.eq(a, b)
+    return a is b
+
+
+R.spec_funcs["same"] = _same
+R.contract(
+    RUN + "run",
+    variant="wiring",
+    prop="C13",
+    args=_RunArgs,
+    ghost={"executed": [], "random_draws": [], "check_args": None, "no_shrink": None},
+    raises=[],
+    ensures={
+        "the_engine_is_run_once_with_one_configuration": "length(ghost('executed')) == 1",
+        # C13: a given seed - ANY integer, 0 and negative ones included - is the seed of the run; without one a random seed gets drawn (unless the run was derandomized)
+        "C13_the_given_seed_is_the_seed_of_the_run": f"implies(generation_seed is not None, {EXEC}.seed == generation_seed and length(ghost('random_draws')) == 0)",
+        "C13_a_random_seed_only_when_none_was_given": f"implies(generation_seed is None, ({EXEC}.seed is None and length(ghost('random_draws')) == 0) if generation_deterministic else "
+                                                      f"(length(ghost('random_draws')) == 1 and {EXEC}.seed == ghost('random_draws')[0]))",
+        "C13_derandomize_and_database_options_reach_hypothesis": f"same({EXEC}.hypothesis_settings.derandomize, generation_deterministic) and same({EXEC}.hypothesis_settings.database, generation_database)",
+        # C12: the limits the user configured are the limits of the run
+        "C12_limits_reach_the_engine_unchanged": f"same({EXEC}.max_failures, max_failures) and same({EXEC}.continue_on_failure, continue_on_failure) and same({EXEC}.unique_inputs, generation_unique_inputs) and "
+                                                 f"same({EXEC}.workers_num, workers_num) and same({EXEC}.hypothesis_settings.max_examples, generation_max_examples) and same(ghost('no_shrink'), generation_no_shrink)",
+        "C12_phases_are_probing_plus_the_selected_ones": f"[p.name for p in {EXEC}.phases] == ['PROBING'] + [phase_member_name(p) for p in phases]",
+        # C14: headers, auth, overrides and transport options reach the network / override configuration unchanged
+        "C14_headers_auth_and_transport_options": f"same({CFG}.engine.network.headers, headers) and same({CFG}.engine.network.auth, auth) and same({CFG}.engine.network.timeout, request_timeout) and "
+                                                  f"same({CFG}.engine.network.tls_verify, request_tls_verify) and same({CFG}.engine.network.proxy, request_proxy) and "
+                                                  f"{CFG}.engine.network.cert == ((request_cert, request_cert_key) if request_cert is not None and request_cert_key is not None else request_cert)",
+        "C14_overrides_each_under_its_own_location": f"same({CFG}.engine.override.query, set_query) and same({CFG}.engine.override.headers, set_header) and same({CFG}.engine.override.cookies, set_cookie) and "
+                                                     f"same({CFG}.engine.override.path_parameters, set_path)",
+        # C15: the sanitization switch the user chose: the one the output and the reports use
+        "C15_sanitization_switch": f"same({CFG}.output.sanitize, output_sanitize) and same({CFG}.output.truncate, output_truncate) and implies({CFG}.report is not None, same({CFG}.report.sanitize_output, output_sanitize))",
+        "C16_reports_requested_are_configured": f"iff({CFG}.report is not None, report_formats is not None or report_junit_path is not None or report_vcr_path is not None) and "
+                                                f"implies({CFG}.report is not None, same({CFG}.report.formats, report_formats) and same({CFG}.report.junit_path, report_junit_path) and "
+                                                f"same({CFG}.report.vcr_path, report_vcr_path) and same({CFG}.report.preserve_bytes, report_preserve_bytes))",
+        # C07: every filter option: passed under its own name
+        "C07_every_filter_option_under_its_own_name": "all(" + " and ".join(f"same({CFG}.filter_set.built_from.{n}, {n})" for n in _FILTER_NAMES) + " for _ in [0])",
+        "location_and_base_url": f"same({CFG}.location, schema) and same({CFG}.base_url, base_url) and same({CFG}.wait_for_schema, wait_for_schema) and same({CFG}.rate_limit, rate_limit)",
+        "generation_options": f"same({EXEC}.generation.allow_x00, generation_allow_x00) and same({EXEC}.generation.graphql_allow_null, generation_graphql_allow_null) and same({EXEC}.generation.codec, generation_codec) and "
+                              f"{EXEC}.generation.modes == list(generation_modes) and same({EXEC}.generation.with_security_parameters, generation_with_security_parameters) and same({EXEC}.generation.unexpected_methods, coverage_unexpected_methods)",
+    },
+    replayable=False,
+    max_paths=200000,
+)
+R.spec_funcs["phase_member_name"] = lambda it, s: {"probing": "PROBING", "examples": "EXAMPLES", "coverage": "COVERAGE", "fuzzing": "FUZZING", "stateful": "STATEFUL_TESTING"}[s.lower()]
